@@ -1,6 +1,6 @@
 (* Props/C12.v -- property C12: UAS INVITE: one final response under any CANCEL/BYE/accept race; 2xx until ACK *)
 From Coq Require Import List NArith Bool.
-From EZK Require Import Gen.Tables Model.Tsx Model.C12 Proofs.C12.
+From EZK Require Import Gen.Tables Model.C04 Proofs.C04 Model.Tsx Model.C12 Proofs.C12.
 Import ListNotations.
 Open Scope N_scope.
 
@@ -66,3 +66,20 @@ Theorem C12_prack_match : forall rs cs pre p post,
   exists l, prack_run (Some (rs, cs)) (pre ++ p :: post) = (None, map (fun _ => false) pre ++ true :: l) /\
             Forall (fun b => b = false) l.
 Proof. exact prack_first_matching. Qed.
+
+(* "a CANCEL that matches the pending INVITE": the pending-cancel table is keyed by (CSeq number, TsxKey::branch()) on both sides,
+   so the CANCEL of a caller finds its INVITE whether the Via branch carries the magic cookie, is an RFC 2543 style branch or is
+   missing; keyed by the raw Via branch on the lookup side only, a legacy caller's CANCEL would miss *)
+Theorem C12_cancel_lookup_guard : cancel_lookup_by_tsx_branch = true.
+Proof. reflexivity. Qed.
+
+Theorem C12_matching_cancel_finds_invite : forall inv c,
+  cancel_lookup_by_tsx_branch = true -> m_is_request inv = true -> m_is_request c = true ->
+  m_branch c = m_branch inv -> m_cseq c = m_cseq inv -> m_from_tag c = m_from_tag inv ->
+  cancellable_reg inv <> None -> cancellable_lookup c = cancellable_reg inv.
+Proof. exact cancel_finds_invite. Qed.
+
+Theorem C12_raw_branch_lookup_refuted : forall inv,
+  has_cookie (m_branch inv) = false -> m_branch inv <> [] -> m_from_tag inv <> None ->
+  cancellable_reg inv <> Some (m_cseq inv, m_branch inv).
+Proof. exact raw_branch_lookup_misses. Qed.
